@@ -14,7 +14,7 @@ from .. import ir
 from ..paths import walk
 from ..report import AnalysisError
 from . import c06
-from .common import explainer_classes, calls
+from .common import defines, explainer_classes, calls
 from .drawlib import uniform_permutation, exact_range, draws_in
 from .imputerlib import imputer_classes
 from .sagelib import role_fields, one, chain_loops, FEATURE_NAMES
@@ -40,7 +40,7 @@ def check(run):
         lf = one(fields, "LOSS", cls)
         for method in ("explain_one", "explain_many", "explain_many_original"):
             owner, fn = prog.find_method(cls, method)
-            if fn is None or owner is not cls:
+            if fn is None or not defines(prog, cls, method):
                 continue
             s = prog.summarise(cls, method)
             chains = chain_loops(s.events, lf)
